@@ -55,6 +55,9 @@ func TestB2C13CMaps(t *testing.T) {
 		charcode.Simple, charcode.UCS2,
 		{{Low: []byte{0x00}, High: []byte{0x7f}}, {Low: []byte{0x80, 0x40}, High: []byte{0x9f, 0xfc}}},
 		{{Low: []byte{0x20, 0x00}, High: []byte{0x21, 0xff}}},
+		// ranges whose sub-trees differ only in where the invalid gaps lie
+		{{Low: []byte{0x01, 0x0a}, High: []byte{0x01, 0x14}}, {Low: []byte{0x02, 0x00}, High: []byte{0x02, 0x14}}},
+		{{Low: []byte{0x00}, High: []byte{0x7f}}, {Low: []byte{0x81, 0x40}, High: []byte{0x9f, 0xfc}}, {Low: []byte{0xe0, 0x80}, High: []byte{0xef, 0xfc}}},
 	}
 	rounds := 12
 	if thorough {
